@@ -28,7 +28,11 @@ INVARIANTS = ["TypeOKV", "VerdictAgrees", "ReasonIsSound", "FaultEffects", "Base
 # entry point graphFromFlowIR builds the FlowIRConcrete outside the error collection of the loader, so a FlowIR error
 # (errors.FlowIRException family: FlowIRInconsistency for a duplicate identifier, ...) may surface unwrapped there; that is
 # still a typed invalid-FlowIR error.  KeyError / ValueError / TypeError / AttributeError / RecursionError ... are leaks.
+# a primitive load (no replication) is only judged for faults it can see: without the replication pass nothing sorts the
+# graph, so a cycle is only found later by validateExperiment
+PRIMITIVE_KINDS = ("none", "var", "drop")
 ALLOWED = {"package": ("ExperimentInvalidConfigurationError",),
+           "primitive": ("ExperimentInvalidConfigurationError", "FlowIRException"),
            "graph": ("ExperimentInvalidConfigurationError", "FlowIRException")}
 
 ALL_TSITES = ["numberProcesses", "numberThreads", "ranksPerNode", "threadsPerCore", "gpus", "maxRestarts", "repeatRetries",
@@ -46,28 +50,38 @@ for _d, _sites in (("int", ALL_TSITES[:9]), ("float", ALL_TSITES[9:12]), ("str",
 
 
 def V(names=("p", "q", "r"), stages=(0, 1), reps=("none", "n2", "vs"), aggs=(True, False), spell=("rel", "abs"), paths=("",),
-      methods=("ref",), styles=("same",), comps=3, refs=2, faults=ALL_FAULTS, package=8, tsites=FEW_TSITES, tclasses=FEW_TCLASSES):
+      methods=("ref",), styles=("same",), comps=3, refs=2, faults=ALL_FAULTS, package=8, tsites=FEW_TSITES, tclasses=FEW_TCLASSES,
+      sv0=(0,), sv1=(2,), mst=(0,), primitive=0):
+    """package / primitive: every k-th mutant is ALSO loaded as a package directory / with graphFromFlowIR(primitive=True)"""
     return dict(names=names, stages=stages, reps=reps, aggs=aggs, spell=spell, paths=paths, methods=methods, styles=styles,
-                comps=comps, refs=refs, faults=faults, package=package, tsites=tsites, tclasses=tclasses)
+                comps=comps, refs=refs, faults=faults, package=package, tsites=tsites, tclasses=tclasses,
+                sv0=sv0, sv1=sv1, mst=mst, primitive=primitive)
 
 
 SLICES = {
     "quick": {
         # every fault kind at every position, two components, all ways of asking for replicas
-        "two": V(names=("p", "q"), reps=("none", "n2", "vs", "vc"), comps=2, package=2),
+        "two": V(names=("p", "q"), reps=("none", "n2", "vs", "vc"), comps=2, package=4),
         # structural faults on three components (chains, diamonds, aggregators), one stage
-        "three": V(stages=(0,), reps=("none", "n2"), spell=("rel",), faults=["none", "drop", "rename", "cycle", "dup", "var"], package=8),
+        "three": V(stages=(0,), reps=("none", "n2"), spell=("rel",), faults=["none", "drop", "rename", "cycle", "dup", "var"], package=16),
         # structural faults across two stages
         "stages": V(reps=("none",), aggs=(False,), spell=("abs",), faults=["drop", "rename", "restage", "cycle", "dup"], package=4),
+        # where a variable is defined: `rs` (replica count) and `msg` (arguments) in the global scope and/or in the scope of the
+        # own / the OTHER stage; removing the global definition leaves it undefined unless the component's OWN stage defines it.
+        # Loaded with primitive=False and primitive=True.
+        "varscope": V(names=("p", "q"), reps=("none", "vs"), aggs=(False,), spell=("abs",), comps=2, refs=1, faults=["none", "var"],
+                      sv0=(0, 2), sv1=(0, 2), mst=(0, 1, 2), package=4, primitive=1),
         # the whole type matrix: every typed option site x every class of value, on small bases
         "types": V(names=("p", "q"), stages=(0,), reps=("none", "n2"), spell=("rel",), comps=2, refs=1, faults=["type"],
-                   tsites=ALL_TSITES, tclasses=ALL_TCLASSES, package=4),
+                   tsites=ALL_TSITES, tclasses=ALL_TCLASSES, package=8),
     },
     "thorough": {
         "two": V(names=("p", "q"), reps=("none", "n1", "n2", "n3", "vg", "vs", "vc"), comps=2, package=4, paths=("", "out.txt")),
         "three": V(stages=(0,), reps=("none", "n2"), spell=("rel",), faults=["none", "drop", "rename", "cycle", "dup", "var"], package=16),
         "three2": V(reps=("none", "n2"), spell=("abs",), faults=["none", "drop", "rename", "restage", "cycle", "dup", "var"], package=32),
         "options": V(stages=(0,), reps=("none", "vg"), spell=("rel",), refs=1, faults=["key", "type"], package=16),
+        "varscope": V(reps=("none", "vs"), aggs=(False,), spell=("abs",), refs=1, faults=["none", "var", "drop"],
+                      sv0=(0, 2), sv1=(0, 2), mst=(0, 1, 2), package=8, primitive=2),
         "types": V(names=("p", "q"), reps=("none", "n2", "vg"), spell=("rel", "abs"), comps=2, refs=1, faults=["type"],
                    tsites=ALL_TSITES, tclasses=ALL_TCLASSES, package=4),
         "four": V(names=("p", "q", "r", "s"), stages=(0,), reps=("none", "n2"), aggs=(False,), spell=("rel",), comps=4,
@@ -83,11 +97,12 @@ MODEL = {
 def write_cfg(path, sl, emit, invariants):
     body = ("CONSTANTS\n  Names = %s\n  Stages = %s\n  RepChoices = %s\n  AggChoices = %s\n  Spellings = %s\n  Paths = %s\n"
             "  Methods = %s\n  ArgStyles = %s\n  DocOrders = {\"fwd\"}\n  MaxComps = %d\n  MaxRefs = %d\n  FixedNames = TRUE\n"
-            "  Emit = FALSE\n  PrivChoices = {0}\n  AggVarChoices = {FALSE}\n  StageVals0 = {0}\n  StageVals1 = {2}\n  MaxSame = 1\n"
-            "  Platforms = {0}\n  PlatGlobalVals = {0}\n  PlatStageVals0 = {0}\n  PlatStageVals1 = {0}\n"
+            "  Emit = FALSE\n  PrivChoices = {0}\n  AggVarChoices = {FALSE}\n  StageVals0 = %s\n  StageVals1 = %s\n  MaxSame = 1\n"
+            "  Platforms = {0}\n  PlatGlobalVals = {0}\n  PlatStageVals0 = {0}\n  PlatStageVals1 = {0}\n  MsgStageVals = %s\n"
             "  FaultKinds = %s\n  EmitV = %s\n  TypeSitesC = %s\n  TypeClassesC = %s\nINIT InitV\nNEXT NextV\n%sCHECK_DEADLOCK FALSE\n" % (
                 _set(sl["names"]), _set(sl["stages"]), _set(sl["reps"]), _set(sl["aggs"]), _set(sl["spell"]), _set(sl["paths"]),
-                _set(sl["methods"]), _set(sl["styles"]), sl["comps"], sl["refs"], _set(sl["faults"]),
+                _set(sl["methods"]), _set(sl["styles"]), sl["comps"], sl["refs"], _set(sl["sv0"]), _set(sl["sv1"]), _set(sl["mst"]),
+                _set(sl["faults"]),
                 "TRUE" if emit else "FALSE", _set(sl["tsites"]), _set(sl["tclasses"]), "".join("INVARIANT %s\n" % i for i in invariants)))
     with open(path, "w") as f:
         f.write(body)
@@ -130,10 +145,12 @@ def case_id(case):
     return json.dumps([case["comps"], sorted(case["gvars"])], sort_keys=True)
 
 
-def check_cases(chk, cases, package_every, procs, label=""):
+def check_cases(chk, cases, package_every, procs, label="", primitive_every=0):
     work = []
     for i, case in enumerate(cases):
         paths = ("graph", "package") if package_every and i % package_every == 0 else ("graph",)
+        if primitive_every and i % primitive_every == 0 and case["fault"]["kind"] in PRIMITIVE_KINDS:
+            paths += ("primitive",)
         work.append((case, paths, chk.scratch))
     results = wf_io.pool_map(wf_io.v_exec_case, work, procs, chunk=32)
     for (case, paths, _), res in zip(work, results):
@@ -197,7 +214,7 @@ def run(tier):
             k = (c["fault"]["kind"], c["valid"])
             seen[k] = seen.get(k, 0) + 1
         chk.add_tlc(r)
-        check_cases(chk, cases, sl["package"], procs, label=name)
+        check_cases(chk, cases, sl["package"], procs, label=name, primitive_every=sl["primitive"])
     threads[0].join()
     if errors:
         raise errors[0][1]
